@@ -1,9 +1,9 @@
 \* thorough tier generation: transition cover of the complete graphs of LRU>Snappy and Snappy>LRU (capacity 1,
-\* default TTL 1..2, foreign undecodable backend writes; model-distinct operations only).
+\* default TTL 2, foreign undecodable backend writes; model-distinct operations only).
 CONSTANTS
   StackIds = {7, 8}
   Caps = {1}
-  DTTLs = {1, 2}
+  DTTLs = {2}
   Keys = {"k1", "k2"}
   Values = {"a", "b"}
   TTLs = {1, 2}
